@@ -518,30 +518,86 @@ def dec_trees(out):
     return res
 
 
-def history(ctx, m, reqs):
+COORD_VARS = {
+    ("nodes", "spherical"): ["node_lon", "node_lat"], ("nodes", "cartesian"): ["node_x", "node_y", "node_z"],
+    ("face centers", "spherical"): ["face_lon", "face_lat"], ("face centers", "cartesian"): ["face_x", "face_y", "face_z"],
+    ("edge centers", "spherical"): ["edge_lon", "edge_lat"], ("edge centers", "cartesian"): ["edge_x", "edge_y", "edge_z"],
+}
+
+
+def source_grid(m, source, ux):
+    """-> (grid, names of the coordinate variables the source supplied).
+    source None: lon/lat + connectivity through Grid.from_topology (unit sphere).
+    source {"R": R, "supplied": bool}: Cartesian-only float64 face vertices at radius R through
+    ux.open_grid(vertices, latlon=False); with `supplied` the face and edge centres are stored at radius R
+    too through the public coordinate setters (no lon/lat anywhere in the source)."""
+    import xarray as xr
+
+    if not source:
+        return meshes.to_grid(m, ux), ["node_lon", "node_lat"]
+    R = float(source["R"])
+    verts = [(m.xyz[f] * R).astype(np.float64).tolist() for f in m.faces]
+    g = ux.open_grid(verts, latlon=False)
+    names = ["node_x", "node_y", "node_z"]
+    if source.get("supplied"):
+        P = np.stack([g.node_x.values, g.node_y.values, g.node_z.values], axis=-1)
+        fc = np.array([P[[v for v in row if v >= 0]].mean(axis=0) for row in g.face_node_connectivity.values])
+        fc = fc / np.linalg.norm(fc, axis=1, keepdims=True) * R
+        en = g.edge_node_connectivity.values
+        ec = 0.5 * (P[en[:, 0]] + P[en[:, 1]])
+        ec = ec / np.linalg.norm(ec, axis=1, keepdims=True) * R
+        for j, ax in enumerate("xyz"):
+            setattr(g, "face_" + ax, xr.DataArray(fc[:, j].copy(), dims=["n_face"]))
+            setattr(g, "edge_" + ax, xr.DataArray(ec[:, j].copy(), dims=["n_edge"]))
+        names += ["face_x", "face_y", "face_z", "edge_x", "edge_y", "edge_z"]
+    return g, names
+
+
+def history(ctx, m, reqs, source=None):
     import uxarray as ux
 
     rng = ctx.rng
-    g = meshes.to_grid(m, ux)
+    g, known = source_grid(m, source, ux)
+    known = list(known)
+    qscale = float(source["R"]) if source else 1.0
     hist_enc = [list(r) for r in reqs]
     sizes = (int(g.n_node), int(g.n_face), int(g.n_edge))
     zs = " ".join(map(str, sizes))
     rep = dec_trees(ctx.driver.ask("C11.cache", zs, 0, len(reqs), *[enc_req(r) for r in reqs]))
     asis = dec_trees(ctx.driver.ask("C11.cache", zs, 1, len(reqs), *[enc_req(r) for r in reqs]))
-    ctx.case(("history", m.key(), tuple(reqs)), nontrivial=len(reqs) >= 2,
+    ctx.case(("history", m.key(), tuple(reqs), str(source)), nontrivial=len(reqs) >= 2,
              sample=dict(history=hist_enc) if len(reqs) == 2 else None)
+    if source:
+        ctx.hit(f"source:cartesian-R={source['R']}{'+supplied-centres' if source.get('supplied') else ''}")
     ctx.hit(f"history-len={len(reqs)}")
     if any(not a["reflects"] for a in asis):
         ctx.hit("history-where-asis-model-is-stale")
     for step, r in enumerate(reqs):
         kind, elem, sys_, metric, recon = r
         inp = dict(type="history", mesh=mesh_input(m), history=hist_enc[: step + 1])
+        if source:
+            inp["source"] = dict(source)
+        # a tree request is a READ: every coordinate variable the grid has reported so far (or the source
+        # supplied) must be reported unchanged afterwards
+        before = {v: np.array(getattr(g, v).values, dtype=float, copy=True) for v in known}
         try:
             tree = get_tree(g, kind, elem, sys_, metric, recon)
         except Exception as e:
             ctx.fail(f"C11/cache/{kind}/request-raises/{type(e).__name__}",
                      f"request {step} of the history raises {type(e).__name__}: {e}", inp)
             return
+        for v in known:
+            now = np.asarray(getattr(g, v).values, dtype=float)
+            if now.shape != before[v].shape or not np.array_equal(now, before[v], equal_nan=True):
+                dev = float(np.max(np.abs(now - before[v]))) if now.shape == before[v].shape else None
+                ctx.fail(f"C11/request-changed-coordinates/{v}",
+                         f"get_{kind}_tree({elem}, {sys_}, {metric}) changed the grid's reported {v} (max deviation {dev}): a "
+                         f"tree request is a read; trees cached earlier no longer describe the grid's current coordinates",
+                         inp, dict(before=before[v][:6].tolist(), now=now[:6].tolist()), None, ["tree_reflects_request"])
+        ctx.hit("coordinates-unchanged-checked", len(known))
+        for v in COORD_VARS[(elem, sys_)]:
+            if v not in known:
+                known.append(v)
         obs = dict(coordinates=tree.coordinates, coordinate_system=tree.coordinate_system,
                    distance_metric=tree.distance_metric)
         oc, os_, om = ELEM.get(obs["coordinates"], 9), SYS.get(obs["coordinate_system"], 9), METRIC.get(obs["distance_metric"], 9)
@@ -552,11 +608,11 @@ def history(ctx, m, reqs):
         n_req = sizes[ELEM[elem]]
         cnt = n_req
         if not diff:
-            beh = behaviour(ctx, g, tree, r, inp)
+            beh = behaviour(ctx, g, tree, r, inp, qscale)
             if beh == "fail":
                 built = ((ELEM[elem] + 1) % 3, os_, om)  # behaves like some other tree
             # the k guard after EVERY request: accepted iff 1 <= k <= n of the kind requested in THIS call
-            if not guard_step(ctx, g, tree, r, inp, zs, sizes, reqs[: step + 1]):
+            if not guard_step(ctx, g, tree, r, inp, zs, sizes, reqs[: step + 1], qscale):
                 c = getattr(tree, "_n_elements", None)
                 cnt = int(c) if isinstance(c, (int, np.integer)) and int(c) != n_req else n_req + 1
         refl = ctx.driver.ask("C11.reflects", zs, enc_req(r), oc, os_, om, *built, cnt)
@@ -584,7 +640,14 @@ def k_class(k, n):
     return "k<1" if k < 1 else "k=1" if k == 1 else "k=n" if k == n else "1<k<n" if k < n else "k>n"
 
 
-def guard_step(ctx, g, tree, r, inp, zs, sizes, hist):
+def scaled(q, sys_, qscale, rng):
+    """Cartesian query points at the grid's own radius (half of the time) or on the unit sphere"""
+    if sys_ == "cartesian" and qscale != 1.0 and rng.random() < 0.5:
+        return [x * qscale for x in q]
+    return q
+
+
+def guard_step(ctx, g, tree, r, inp, zs, sizes, hist, qscale=1.0):
     """`query` on the wrapper just handed back, for k below, inside and above 1..n of the REQUESTED
     kind (incl. k = n, a random k, and the sizes of the other element kinds ± 1, which is where a
     stale element count shows).  The model's verdict (`handback_guard`, evaluated by the Lean driver
@@ -604,7 +667,7 @@ def guard_step(ctx, g, tree, r, inp, zs, sizes, hist):
     for k in ks:
         in_rad = rng.random() < 0.3
         lo, la = rng.uniform(-180, 180), math.degrees(math.asin(rng.uniform(-1, 1)))
-        q = user_query(sys_, metric, in_rad, lo, la)
+        q = scaled(user_query(sys_, metric, in_rad, lo, la), sys_, qscale, rng)
         want = ctx.driver.ask("C11.guard", zs, 0, len(hist), *[enc_req(x) for x in hist], k) == "1"
         cls = k_class(k, n)
         qinp = dict(inp, op="query", k=k, in_radians=in_rad, queries=[q], form="single-1d")
@@ -646,7 +709,7 @@ def guard_step(ctx, g, tree, r, inp, zs, sizes, hist):
     return ok
 
 
-def behaviour(ctx, g, tree, r, inp):
+def behaviour(ctx, g, tree, r, inp, qscale=1.0):
     """One k-nearest AND one radius query in the convention of request `r` on the wrapper just handed
     back, both judged by the Lean spec against brute force over the element kind requested in THIS
     call (so a wrapper that claims the kind but still answers from another kind's sklearn tree —
@@ -665,7 +728,7 @@ def behaviour(ctx, g, tree, r, inp):
     for attempt in range(3):
         lo, la = rng.uniform(-180, 180), math.degrees(math.asin(rng.uniform(-1, 1)))
         in_rad = rng.random() < 0.3
-        q = user_query(sys_, metric, in_rad, lo, la)
+        q = scaled(user_query(sys_, metric, in_rad, lo, la), sys_, qscale, rng)
         k = min(n, rng.choice([1, 2, 3, 3]))
         cfg = (kind, sys_, metric, in_rad)
         qinp = dict(inp, op="query", k=k, in_radians=in_rad, queries=[q])
@@ -685,7 +748,7 @@ def behaviour(ctx, g, tree, r, inp):
         for attempt in range(3):
             lo, la = rng.uniform(-180, 180), math.degrees(math.asin(rng.uniform(-1, 1)))
             in_rad = rng.random() < 0.3
-            q = user_query(sys_, metric, in_rad, lo, la)
+            q = scaled(user_query(sys_, metric, in_rad, lo, la), sys_, qscale, rng)
             cfg = (kind, sys_, metric, in_rad)
             D = common.Tok(ctx.driver.ask("C11.dists", enc_cfg(*cfg), enc_floats(q), enc_els(E)))
             D.word()
@@ -717,6 +780,36 @@ def behaviour(ctx, g, tree, r, inp):
     if "fail" in (res, res2):
         return "fail"
     return "ok" if "ok" in (res, res2) else "tie"
+
+
+def radius_histories(ctx):
+    """Cartesian-only float64 sources at radius R != 1 (face vertices through ux.open_grid(latlon=False); with and
+    without face / edge centres stored at radius R): Cartesian tree -> FIRST spherical tree of that kind (derives
+    lon/lat from the stored xyz) -> the Cartesian tree again / other kinds.  After every request the brute force runs
+    over the coordinates the grid reports NOW, and everything reported before must be reported unchanged."""
+    rng = ctx.rng
+    E3 = list(ELEM)
+    ms = [meshes.hull(rng.choice([8, 10, 12]), rng), meshes.cube_sphere(1).rotated(meshes.random_rotation(rng)),
+          meshes.icosa().rotated(meshes.random_rotation(rng))]
+    for R in (0.5, 2.5, 6371.229):
+        for supplied in (False, True):
+            src = dict(R=R, supplied=supplied)
+            for e in E3:
+                others = [x for x in E3 if x != e]
+                hs = [[("kd", e, "cartesian", "minkowski", False), ("ball", e, "spherical", "haversine", False),
+                       ("kd", e, "cartesian", "minkowski", False)]]
+                if ctx.thorough or ctx.escalate or rng.random() < 0.5:
+                    hs.append([("ball", e, "cartesian", "euclidean", False), ("kd", e, "spherical", "minkowski", False),
+                               ("ball", e, "cartesian", "euclidean", False), ("ball", others[0], "cartesian", "euclidean", False),
+                               ("kd", others[0], "spherical", "minkowski", False), ("ball", others[0], "cartesian", "euclidean", False),
+                               ("ball", e, "cartesian", "euclidean", False)])
+                if ctx.thorough or ctx.escalate or rng.random() < 0.5:
+                    hs.append([("kd", e, "cartesian", "manhattan", False), ("kd", others[1], "cartesian", "manhattan", False),
+                               ("ball", others[1], "spherical", "haversine", False), ("ball", e, "spherical", "haversine", False),
+                               ("kd", e, "cartesian", "manhattan", False), ("kd", others[1], "cartesian", "manhattan", False)])
+                for h in hs:
+                    ctx.hit("radius-history")
+                    history(ctx, rng.choice(ms), h, src)
 
 
 def kind_switch_histories(ctx, hm):
@@ -821,6 +914,7 @@ def run(ctx):
     for a, b in pairs[: ctx.n(140, len(pairs))]:
         history(ctx, rng.choice(hm), [a, b])
     kind_switch_histories(ctx, hm)
+    radius_histories(ctx)
     allr = all_reqs("ball") + all_reqs("kd")
     for _ in range(ctx.n(40, 400)):
         L = rng.choice([3, 3, 4, 5])
@@ -875,7 +969,7 @@ def replay_input(ctx, inp, signature=None):
     m = mesh_of(inp["mesh"])
     ty = inp.get("type")
     if ty == "history":
-        history(ctx, m, [tuple(r) for r in inp["history"]])
+        history(ctx, m, [tuple(r) for r in inp["history"]], inp.get("source"))
         return
     if ty == "guard":
         guards(ctx, m, (inp["tree"], inp["coordinate_system"], inp["metric"]), inp["elem"])
